@@ -90,6 +90,22 @@ theorem search_total {S : Type} (sc : Scorer S) (ts : Ts) (hts : TsOk ts) (o : O
         rw [this, hout] at hexp
         cases hexp
 
+/-- **… and neither does `ctparse_gen` with latent-time anchoring**: post-processing of the streamed candidates (every one is well
+    formed, `C02.search_candidates_ok`) never raises, so the error component of the whole parse is that of the search -/
+theorem parse_total {S : Type} (sc : Scorer S) (ts : Ts) (hts : TsOk ts) (o : Opts) (raw : List Nat) (fuel : Nat)
+    (hint : ∀ a ∈ matchRegex (stripLabels (preprocess raw)), ∀ k, a.v = .tok k → TokInt k)
+    (hyear : ∀ p t rules, ReachE (mkCfg sc ts o.depth (stripLabels (preprocess raw)))
+        (initialStack sc o.depth o.relMatchLenNum o.relMatchLenDen (stripLabels (preprocess raw)) fuel).1 p t rules → ∀ a ∈ p, a.v.YearLe 9990) :
+    (ctparseGen sc ts o raw fuel).err = none ∨ (ctparseGen sc ts o raw fuel).err = some .unmodelled := by
+  have hs := search_total sc ts hts o (stripLabels (preprocess raw)) fuel hint hyear
+  have hok := fun c hc => (C02.search_candidates_ok sc ts hts.valid o (stripLabels (preprocess raw)) fuel c hc).1
+  have hl := latentAll_total ts hts _ hok
+  unfold ctparseGen
+  simp only
+  split
+  · simp only [hl]; exact hs
+  · exact hs
+
 /-- hypothesis (a) is met by ordinary tokens: '5pm' has a numeric group that converts and a marker group that is never converted -/
 example : TokInt { id := 128, caps := [("ampm", [112, 109]), ("hour", [53])] } := by
   intro n hn w hg
